@@ -18,7 +18,10 @@ EXPLANATION = (
     "_scale together (histogram), bins and n_out_of_range (set_nevents); graph.scale rebinds exactly the coordinate "
     "lists [dim-1] + error indices of the last coordinate to new lists (no in-place change of a possibly shared "
     "list) and then stores the new scale; (d) scale_to / ScaleTo reach structure.scale(x) on every non-raising path; (e) ToCSV.run carries no local or self state from one value to the next; "
-    "(f) iter_cells recognises an absent index limit of *ranges* with `is None` only -- a limit is never tested for truth, so the legitimate limit 0 (an empty range) is not taken for 'no limit'.")
+    "(f) iter_cells recognises an absent index limit of *ranges* with `is None` only -- a limit is never tested for truth, so the legitimate limit 0 (an empty range) is not taken for 'no limit'; "
+    "(g) set_nevents divides nevents by exactly self.get_nevents(include_out_of_range=<the same flag>), not adjusted afterwards, and "
+    "_parse_error_names keeps its errors in field order (no sort/reverse/insert), because _get_err_indices takes the position of a "
+    "parsed error for its column.")
 RULES = {
     "C12-a": "GUARD: division by a scale/count is dominated by a zero test that raises LenaValueError",
     "C12-b": "PURE: histogram.add leaves its operands alone and returns a new histogram over copied edges",
